@@ -1,6 +1,9 @@
 //! mb2h — correspondence harness. Reads one case per line on stdin, calls the real
 //! multiboot2 / multiboot2-common / multiboot2-header API in-process, writes one canonical
 //! observation line per case on stdout (flushed per line so that a crash pinpoints the case).
+mod alloc_track;
+#[cfg(feature = "builder")]
+mod build_fam;
 mod cast_fam;
 mod common_fam;
 #[cfg(feature = "builder")]
@@ -11,6 +14,9 @@ mod sweep;
 mod util;
 
 use std::io::{BufRead, Write};
+
+#[global_allocator]
+static GLOBAL: alloc_track::Tracking = alloc_track::Tracking;
 
 pub struct Ctx {
     pub arena: util::Arena,
@@ -37,6 +43,14 @@ fn handle(ctx: &Ctx, line: &str) -> String {
         "ELFNAME" => sweep::elfname_case(ctx, &t),
         #[cfg(feature = "builder")]
         "CTOR" => ctor_fam::ctor_case(&t),
+        #[cfg(feature = "builder")]
+        "BUILD" => build_fam::build_case(&t),
+        #[cfg(feature = "builder")]
+        "HBUILD" => build_fam::hbuild_case(&t),
+        #[cfg(feature = "builder")]
+        "BOXED" => ctor_fam::boxed_case(&t),
+        #[cfg(feature = "builder")]
+        "CLONE" => ctor_fam::clone_case(ctx, &t),
         f => format!("unknown-family:{}", f),
     }
 }
